@@ -103,8 +103,10 @@ namespace pika {
             PIKA_THROW_EXCEPTION(pika::error::null_thread_id, "run_thread_exit_callbacks",
                 "null thread id encountered");
         }
+        PIKA_VERIF_POST("jn.bodydone", threads::detail::get_thread_id_data(id), 0, 0);
         threads::detail::run_thread_exit_callbacks(id);
         threads::detail::free_thread_exit_callbacks(id);
+        PIKA_VERIF_POST("jn.exited", threads::detail::get_thread_id_data(id), 0, 0);
     }
 
     threads::detail::thread_result_type thread::thread_function_nullary(
@@ -113,11 +115,13 @@ namespace pika {
         try
         {
             // Now notify our calling thread that we started execution.
+            PIKA_VERIF_POST("jn.body", reinterpret_cast<void const*>(threads::detail::verif_self()), 0, 0);
             func();
         }
         catch (pika::thread_interrupted const&)
         {    //-V565
             /* swallow this exception */
+            PIKA_VERIF_POST("jn.interrupted", reinterpret_cast<void const*>(threads::detail::verif_self()), 0, 0);
         }
         catch (pika::exception const&)
         {
@@ -167,6 +171,7 @@ namespace pika {
         // before the thread function is executed
         error_code ec(throwmode::lightweight);
         pool->create_thread(data, id_, ec);
+        PIKA_VERIF_POST("jn.start", this, reinterpret_cast<std::uint64_t>(static_cast<void const*>(threads::detail::get_thread_id_data(id_))), threads::detail::verif_self());
         if (ec)
         {
             PIKA_THROW_EXCEPTION(pika::error::thread_resource_error, "thread::start_thread",
@@ -177,15 +182,18 @@ namespace pika {
 
     static void resume_thread(threads::detail::thread_id_type const& id)
     {
+        PIKA_VERIF_POST("jn.resume", threads::detail::get_thread_id_data(id), threads::detail::verif_self(), 0);
         threads::detail::set_thread_state(id, threads::detail::thread_schedule_state::pending);
     }
 
     void thread::join()
     {
         std::unique_lock l(mtx_);
+        PIKA_VERIF_POST("jn.lock", this, threads::detail::verif_self(), 0);
 
         if (!joinable_locked())
         {
+            PIKA_VERIF_POST("jn.err", this, threads::detail::verif_self(), 1);
             l.unlock();
             PIKA_THROW_EXCEPTION(pika::error::invalid_status, "thread::join",
                 "trying to join a non joinable thread");
@@ -194,11 +202,13 @@ namespace pika {
         native_handle_type this_id = pika::threads::detail::get_self_id();
         if (this_id == id_)
         {
+            PIKA_VERIF_POST("jn.err", this, threads::detail::verif_self(), 2);
             l.unlock();
             PIKA_THROW_EXCEPTION(pika::error::thread_resource_error, "thread::join",
                 "pika::thread: trying joining itself");
             return;
         }
+        PIKA_VERIF_POST("jn.checked", this, threads::detail::verif_self(), reinterpret_cast<std::uint64_t>(static_cast<void const*>(threads::detail::get_thread_id_data(id_))));
         this_thread::interruption_point();
 
         // register callback function to be called when thread exits
@@ -206,11 +216,17 @@ namespace pika {
                 id_.noref(), util::detail::bind_front(&resume_thread, this_id)))
         {
             // wait for thread to be terminated
+            PIKA_VERIF_POST("jn.unlock", this, threads::detail::verif_self(), 0);
             detail::unlock_guard ul(l);
+            PIKA_VERIF_POINT("jn.window", this, 0, 0);
+            PIKA_VERIF_POST("jn.susp", this, threads::detail::verif_self(), 0);
             this_thread::suspend(threads::detail::thread_schedule_state::suspended, "thread::join");
+            PIKA_VERIF_POST("jn.woke", this, threads::detail::verif_self(), 0);
+            PIKA_VERIF_POINT("jn.window", this, 1, 0);
         }
 
         detach_locked();    // invalidate this object
+        PIKA_VERIF_POST("jn.done", this, threads::detail::verif_self(), 0);
     }
 
     // extensions
